@@ -73,13 +73,18 @@ def Part1.bdry (P : Part1) (k : Nat) : Rat :=
   else if k = 0 then P.lo
   else (P.c k + P.c (k - 1)) / 2
 
-/-- `cell_sizes_vecs`: `0.0` for a single point; otherwise `csize[1:-1] = (c[2:] - c[:-2])/2`,
-then `csize[0]`, then `csize[-1]`. -/
+/-- `cell_sizes_vecs`: the extent for a single point (one cell = the whole interval);
+otherwise `csize[1:-1] = (c[2:] - c[:-2])/2`, then `csize[0]`, then `csize[-1]`. -/
 def Part1.cellSize (P : Part1) (i : Nat) : Rat :=
-  if P.n = 1 then 0
+  if P.n = 1 then P.hi - P.lo
   else if i + 1 = P.n then P.hi - (P.c (P.n - 2) + P.c (P.n - 1)) / 2
   else if i = 0 then (P.c 0 + P.c 1) / 2 - P.lo
   else (P.c (i + 1) - P.c (i - 1)) / 2
+
+/-- OLD variant (before the repair of finding C14-F2, kept to document the sensitivity):
+`cell_sizes_vecs` was `[0.0]` on an axis with a single point. -/
+def Part1.cellSizeOld (P : Part1) (i : Nat) : Rat :=
+  if P.n = 1 then 0 else P.cellSize i
 
 /-- `boundary_cell_fractions`. -/
 def Part1.bdryFrac (P : Part1) : Rat × Rat :=
@@ -300,16 +305,22 @@ inductive Flags
   | perAxis (f : List (Bool × Bool))
   deriving Repr
 
-/-- What the loop in `uniform_partition` / `nonuniform_partition` sees in axis `i` after
-`normalized_nodes_on_bdry(nodes_on_bdry, ndim)`.  In the `flat` case the code returns the
-list `[l, r]` (not `[(l, r)]`): the loop's `zip` reads the bare bool `l` in axis 0; the
-`uniform_partition` loop then uses it for both sides, `nonuniform_partition` fails to unpack
-it (`none`). -/
-def Flags.loopFlags (f : Flags) (ndim : Nat) (unpackBool : Bool) : Option (List (Bool × Bool)) :=
+/-- What the loops in `uniform_partition` / `nonuniform_partition` see per axis after
+`normalized_nodes_on_bdry(nodes_on_bdry, ndim)`: a list of `(left, right)` pairs.  The 1-d
+flat form `(l, r)` becomes `[(l, r)]`. -/
+def Flags.loopFlags (f : Flags) (ndim : Nat) : Option (List (Bool × Bool)) :=
   match f with
   | .global b => some (List.replicate ndim (b, b))
-  | .flat l _ => if ndim = 1 then (if unpackBool then some [(l, l)] else none) else none
+  | .flat l r => if ndim = 1 then some [(l, r)] else none
   | .perAxis fl => if fl.length = ndim then some fl else none
+
+/-- OLD variant (before the repair of finding C14-F1, kept to document the sensitivity):
+`normalized_nodes_on_bdry((l, r), 1)` returned the list `[l, r]`; the loop's `zip` then read
+the bare bool `l` in axis 0 and `uniform_partition` used it for both sides. -/
+def Flags.loopFlagsOld (f : Flags) (ndim : Nat) : Option (List (Bool × Bool)) :=
+  match f with
+  | .flat l _ => if ndim = 1 then some [(l, l)] else none
+  | f => f.loopFlags ndim
 
 /-- What `uniform_grid_fromintv` makes of the (normalised) flags it is handed. -/
 def Flags.gridFlags (f : Flags) (ndim : Nat) : Option (List (Bool × Bool)) :=
@@ -358,7 +369,7 @@ def uniformPartition (t : Tol) (eps : Rat) (xmin xmax : List (Option Rat)) (shap
     (dx : List (Option Rat)) (flags : Flags) : Option Part := do
   let nd := xmin.length
   if xmax.length ≠ nd ∨ shape.length ≠ nd ∨ dx.length ≠ nd then none
-  let lf ← flags.loopFlags nd true
+  let lf ← flags.loopFlags nd
   let done ← (List.zip (List.zip xmin xmax) (List.zip (List.zip shape dx) lf)).mapM
     fun ((a, b), ((n, d), (bl, br))) => completeAxis t eps a b n d bl br
   let gf ← flags.gridFlags nd
